@@ -83,4 +83,13 @@ class Deduplication(UnaryOperation):
                 done=False,
                 messages=(f"{current.operation} is count-dependent",),
             )
+        if current.operation.is_order_dependent:
+            # Deduplication keeps the first occurrence of each row, so the
+            # order of its result depends on the order of its target.
+            return UnaryCommutator(
+                first=None,
+                second=current.operation,
+                done=False,
+                messages=(f"{current.operation} is order-dependent",),
+            )
         return UnaryCommutator(self, current.operation)
